@@ -1,18 +1,26 @@
 import NfcVerif.Model.Collect
 /-! Lemmas for C10: every dequeue path respects the size it is called with; the aggregation loops keep the
-information field of the aggregate within the MIU. -/
+information field of the aggregate within the MIU - also when the dequeued UI / I PDUs grow by the ICV of
+secure data transfer after the size check. -/
 namespace NfcVerif.Collect
 
-/-- the dequeued PDU fits the size it was dequeued under -/
+def QPdu.isData (p : QPdu) : Prop := p.kind = .ui ∨ p.kind = .i
+instance (p : QPdu) : Decidable p.isData := inferInstanceAs (Decidable (p.kind = .ui ∨ p.kind = .i))
+
+/-- a PDU (as it is appended to the aggregate) fits the size it was dequeued under -/
 def Fit (p : QPdu) (m : Int) : Prop := p.hdr ≤ 3 ∧ (((p.len : Int) - p.hdr ≤ m) ∨ p.len ≤ 3)
 
 def POk (p : QPdu) : Prop := p.hdr ≤ 3
-def Small (p : QPdu) : Prop := p.hdr ≤ 3 ∧ p.len ≤ 3
+/-- acknowledgements and DM PDUs: 3 octets, never encrypted -/
+def Small (p : QPdu) : Prop := p.hdr ≤ 3 ∧ p.len ≤ 3 ∧ ¬ p.isData
+
+/-- the dequeued PDU fits the size it was dequeued under, counting `icv` octets on top of a UI / I PDU -/
+def FitE (p : QPdu) (m : Int) (icv : Nat) : Prop := p.hdr ≤ 3 ∧ (((p.size icv : Int) - p.hdr ≤ m) ∨ Small p)
 
 def SockOk : Sock → Prop
   | .raw _ => False
-  | .ldl q => ∀ p ∈ q, POk p
-  | .dlc _ _ _ _ _ _ _ q => ∀ p ∈ q, POk p
+  | .ldl _ q => ∀ p ∈ q, POk p
+  | .dlc _ q => ∀ p ∈ q, POk p
 
 def EntOk : Ent → Prop
   | .sap s => (∀ k ∈ s.socks, SockOk k) ∧ (∀ p ∈ s.sendList, Small p)
@@ -21,9 +29,51 @@ def EntOk : Ent → Prop
 theorem size_ge (p : QPdu) (icv : Nat) : p.len ≤ p.size icv := by
   unfold QPdu.size; split <;> omega
 
+theorem encrypt_hdr (sec : Option Nat) (p : QPdu) : (p.encrypt sec).hdr = p.hdr := by
+  unfold QPdu.encrypt; cases sec with
+  | none => rfl
+  | some n => simp only; split <;> rfl
+
+theorem encrypt_kind (sec : Option Nat) (p : QPdu) : (p.encrypt sec).kind = p.kind := by
+  unfold QPdu.encrypt; cases sec with
+  | none => rfl
+  | some n => simp only; split <;> rfl
+
+/-- `encrypt()` makes a UI / I PDU exactly `icv_size` octets longer and leaves every other PDU alone -/
+theorem encrypt_len (sec : Option Nat) (p : QPdu) : (p.encrypt sec).len = p.size (icvOf sec) := by
+  unfold QPdu.encrypt QPdu.size icvOf; cases sec with
+  | none => simp
+  | some n => simp only; split <;> rfl
+
+theorem encrypt_not_data (sec : Option Nat) (p : QPdu) (h : ¬ p.isData) : p.encrypt sec = p := by
+  unfold QPdu.isData at h
+  unfold QPdu.encrypt; cases sec with
+  | none => rfl
+  | some n => simp only; rw [if_neg h]
+
+/-- the payload (service data unit) is not changed by `encrypt()` -/
+theorem encrypt_payload (sec : Option Nat) (p : QPdu) : (p.encrypt sec).payload = p.payload := by
+  unfold QPdu.encrypt QPdu.payload; cases sec with
+  | none => rfl
+  | some n => simp only; split <;> simp only <;> omega
+
+theorem encrypt_lim (sec : Option Nat) (p : QPdu) : (p.encrypt sec).lim = p.lim := by
+  unfold QPdu.encrypt; cases sec with
+  | none => rfl
+  | some n => simp only; split <;> rfl
+
+theorem small_fitE {p : QPdu} (h : Small p) (m : Int) (icv : Nat) : FitE p m icv := ⟨h.1, Or.inr h⟩
+
+/-- what was dequeued with `icv_size` still fits after `encrypt()` -/
+theorem fitE_encrypt {p : QPdu} {m : Int} {sec : Option Nat} (h : FitE p m (icvOf sec)) : Fit (p.encrypt sec) m := by
+  refine ⟨by rw [encrypt_hdr]; exact h.1, ?_⟩
+  rcases h.2 with h2 | h2
+  · left; rw [encrypt_len, encrypt_hdr]; exact h2
+  · right; rw [encrypt_not_data sec p h2.2.2]; exact h2.2.1
+
 theorem tco_some {q q' : List QPdu} {m : Int} {icv : Nat} {p : QPdu}
     (h : tcoDequeue q (some m) icv = (some p, q')) :
-    p ∈ q ∧ ((p.len : Int) - p.hdr ≤ m) ∧ (∀ x ∈ q', x ∈ q) := by
+    p ∈ q ∧ ((p.size icv : Int) - p.hdr ≤ m) ∧ (∀ x ∈ q', x ∈ q) := by
   cases q with
   | nil => simp [tcoDequeue] at h
   | cons p0 rest =>
@@ -32,7 +82,6 @@ theorem tco_some {q q' : List QPdu} {m : Int} {icv : Nat} {p : QPdu}
     · cases h
     · rename_i hle
       cases h
-      have := size_ge p icv
       refine ⟨by simp, by omega, fun x hx => by simp [hx]⟩
 
 theorem tco_none {q q' : List QPdu} {m : Int} {icv : Nat}
@@ -45,12 +94,15 @@ theorem tco_none {q q' : List QPdu} {m : Int} {icv : Nat}
     · cases h; rfl
     · cases h
 
+theorem ack_small (b : Bool) (n : Nat) : Small (ackPdu b n) := by
+  cases b <;> simp [Small, ackPdu, QPdu.isData]
+
 theorem sock_dequeue {s s' : Sock} {m : Int} {icv : Nat} {r : Option QPdu}
     (hs : SockOk s) (h : s.dequeue m icv = (r, s')) :
-    SockOk s' ∧ ∀ p, r = some p → Fit p m := by
+    SockOk s' ∧ ∀ p, r = some p → FitE p m icv := by
   cases s with
   | raw q => exact absurd hs (by simp [SockOk])
-  | ldl q =>
+  | ldl sm q =>
     simp only [Sock.dequeue] at h
     cases hr : tcoDequeue q (some m) icv with
     | mk a b =>
@@ -62,11 +114,11 @@ theorem sock_dequeue {s s' : Sock} {m : Int} {icv : Nat} {r : Option QPdu}
         refine ⟨fun x hx => hs x (hsub x hx), ?_⟩
         intro p' hp'; cases hp'
         exact ⟨hs p hm, Or.inl hb⟩
-  | dlc est busy busySent rw cnt ack confs q =>
+  | dlc d q =>
     simp only [Sock.dequeue] at h
     split at h
     · cases h
-      exact ⟨hs, by intro p hp; cases hp; exact ⟨by simp [rrPdu], Or.inr (by simp [rrPdu])⟩⟩
+      exact ⟨hs, by intro p hp; cases hp; exact small_fitE (ack_small _ _) _ _⟩
     · cases hr : tcoDequeue q (some m) icv with
       | mk a b =>
         rw [hr] at h
@@ -76,33 +128,31 @@ theorem sock_dequeue {s s' : Sock} {m : Int} {icv : Nat} {r : Option QPdu}
           rw [tco_none hr] at h
           split at h
           · cases h
-            exact ⟨hs, by intro p hp; cases hp; exact ⟨by simp [rrPdu], Or.inr (by simp [rrPdu])⟩⟩
+            exact ⟨hs, by intro p hp; cases hp; exact small_fitE (ack_small _ _) _ _⟩
           · cases h; exact ⟨hs, by simp⟩
         | some p =>
           obtain ⟨hm, hb, hsub⟩ := tco_some hr
           simp only at h
-          have hfit : Fit p m := ⟨hs p hm, Or.inl hb⟩
+          have hfit : FitE p m icv := ⟨hs p hm, Or.inl hb⟩
           split at h
           · cases h; exact ⟨by simp [SockOk], by intro p' hp'; cases hp'; exact hfit⟩
           · split at h
-            · split at h
-              · cases h; exact ⟨fun x hx => hs x (hsub x hx), by intro p' hp'; cases hp'; exact hfit⟩
-              · cases h; exact ⟨fun x hx => hs x (hsub x hx), by intro p' hp'; cases hp'; exact hfit⟩
+            · cases h; exact ⟨fun x hx => hs x (hsub x hx), by intro p' hp'; cases hp'; exact hfit⟩
             · cases h; exact ⟨fun x hx => hs x (hsub x hx), by intro p' hp'; cases hp'; exact hfit⟩
 
 theorem sock_sendack {s s' : Sock} {r : Option QPdu} (hs : SockOk s) (h : s.sendack = (r, s')) :
     SockOk s' ∧ ∀ p, r = some p → Small p := by
   cases s with
   | raw q => exact absurd hs (by simp [SockOk])
-  | ldl q => simp only [Sock.sendack] at h; cases h; exact ⟨hs, by simp⟩
-  | dlc est busy busySent rw cnt ack confs q =>
+  | ldl sm q => simp only [Sock.sendack] at h; cases h; exact ⟨hs, by simp⟩
+  | dlc d q =>
     simp only [Sock.sendack] at h
     split at h
-    · cases h; exact ⟨hs, by intro p hp; cases hp; simp [Small, rrPdu]⟩
+    · cases h; exact ⟨hs, by intro p hp; cases hp; exact ack_small _ _⟩
     · cases h; exact ⟨hs, by simp⟩
 
 theorem socks_dequeue (l : List Sock) (m : Int) (icv : Nat) (hl : ∀ k ∈ l, SockOk k) :
-    (∀ k ∈ (socksDequeue l m icv).2, SockOk k) ∧ ∀ p, (socksDequeue l m icv).1 = some p → Fit p m := by
+    (∀ k ∈ (socksDequeue l m icv).2, SockOk k) ∧ ∀ p, (socksDequeue l m icv).1 = some p → FitE p m icv := by
   induction l with
   | nil => simp [socksDequeue]
   | cons s rest ih =>
@@ -153,7 +203,7 @@ theorem socks_sendack (l : List Sock) (hl : ∀ k ∈ l, SockOk k) :
         · exact hb
         · exact ihr.1 k hk
 
-theorem small_fit {p : QPdu} (h : Small p) (m : Int) : Fit p m := ⟨h.1, Or.inr h.2⟩
+theorem small_fit {p : QPdu} (h : Small p) (m : Int) : Fit p m := ⟨h.1, Or.inr h.2.1⟩
 
 theorem takeSdres_spec (l : List Nat) (m : Int) (n : Nat) (hm : 0 ≤ m) :
     0 ≤ (takeSdres l m n).2.2 ∧ (4 * (takeSdres l m n).1 : Int) + (takeSdres l m n).2.2 = 4 * n + m := by
@@ -186,9 +236,11 @@ theorem takeSdreq_spec (k : Nat) (q : List (Nat × Nat)) (m : Int) (acc : Nat) (
         push_cast at this ⊢
         omega
 
-theorem sd_dequeue {s s' : Sd} {m : Int} {r : Option QPdu} (hs : ∀ p ∈ s.dmpdu, Small p) (hm : 0 ≤ m)
+theorem snl_size (l icv : Nat) : (snlPdu l).size icv = l := by simp [snlPdu, QPdu.size]
+
+theorem sd_dequeue {s s' : Sd} {m : Int} {r : Option QPdu} (icv : Nat) (hs : ∀ p ∈ s.dmpdu, Small p) (hm : 0 ≤ m)
     (h : s.dequeue m = (r, s')) :
-    (∀ p ∈ s'.dmpdu, Small p) ∧ ∀ p, r = some p → Fit p m := by
+    (∀ p ∈ s'.dmpdu, Small p) ∧ ∀ p, r = some p → FitE p m icv := by
   unfold Sd.dequeue at h
   split at h
   · simp only at h
@@ -197,8 +249,9 @@ theorem sd_dequeue {s s' : Sd} {m : Int} {r : Option QPdu} (hs : ∀ p ∈ s.dmp
     intro p hp; cases hp
     have h1 := takeSdres_spec s.sdres m 0 hm
     have h2 := takeSdreq_spec s.sdreq.length s.sdreq (takeSdres s.sdres m 0).2.2 0 h1.1
-    refine ⟨by simp, Or.inl ?_⟩
-    simp only
+    refine ⟨by simp [snlPdu], Or.inl ?_⟩
+    rw [snl_size]
+    simp only [snlPdu]
     push_cast
     omega
   · split at h
@@ -207,19 +260,19 @@ theorem sd_dequeue {s s' : Sd} {m : Int} {r : Option QPdu} (hs : ∀ p ∈ s.dmp
       · cases h
         refine ⟨fun x hx => hs x (by rw [hd]; simp [hx]), ?_⟩
         intro p' hp'; cases hp'
-        exact small_fit (hs p (by rw [hd]; simp)) m
+        exact small_fitE (hs p (by rw [hd]; simp)) m icv
       · cases h; exact ⟨hs, by simp⟩
     · cases h; exact ⟨hs, by simp⟩
 
 theorem ent_dequeue {e e' : Ent} {m : Int} {icv : Nat} {r : Option QPdu} (he : EntOk e) (hm : 0 ≤ m)
-    (h : e.dequeue m icv = (r, e')) : EntOk e' ∧ ∀ p, r = some p → Fit p m := by
+    (h : e.dequeue m icv = (r, e')) : EntOk e' ∧ ∀ p, r = some p → FitE p m icv := by
   cases e with
   | sd s =>
     simp only [Ent.dequeue] at h
     cases hr : s.dequeue m with
     | mk a b =>
       rw [hr] at h; cases h
-      exact sd_dequeue he hm hr
+      exact sd_dequeue icv he hm hr
   | sap s =>
     simp only [Ent.dequeue, Sap.dequeue] at h
     have hsd := socks_dequeue s.socks m icv he.1
@@ -238,7 +291,7 @@ theorem ent_dequeue {e e' : Ent} {m : Int} {icv : Nat} {r : Option QPdu} (he : E
           cases h
           refine ⟨⟨hsd.1, fun x hx => he.2 x (by rw [hsl]; simp [hx])⟩, ?_⟩
           intro p' hp'; cases hp'
-          exact small_fit (he.2 p (by rw [hsl]; simp)) m
+          exact small_fitE (he.2 p (by rw [hsl]; simp)) m icv
 
 theorem ent_sendack {e e' : Ent} {r : Option QPdu} (he : EntOk e) (h : e.sendack = (r, e')) :
     EntOk e' ∧ ∀ p, r = some p → Small p := by
@@ -267,27 +320,27 @@ theorem append_inv {M : Nat} {subs : List QPdu} {p : QPdu} (hb : 0 ≤ budget M 
 theorem entsOk_cons {e : Ent} {es : List Ent} : EntsOk (e :: es) ↔ EntOk e ∧ EntsOk es := by
   simp [EntsOk]
 
-theorem aggPass_spec (M icv : Nat) (es : List Ent) : ∀ (subs : List QPdu) (nf : Bool), EntsOk es →
+theorem aggPass_spec (M : Nat) (sec : Option Nat) (es : List Ent) : ∀ (subs : List QPdu) (nf : Bool), EntsOk es →
     0 ≤ budget M subs →
-    EntsOk (aggPass M icv es subs nf).1 ∧
-      ((aggPass M icv es subs nf).2.1 = subs ∨ Inv M (aggPass M icv es subs nf).2.1) := by
+    EntsOk (aggPass M sec es subs nf).1 ∧
+      ((aggPass M sec es subs nf).2.1 = subs ∨ Inv M (aggPass M sec es subs nf).2.1) := by
   induction es with
   | nil => intro subs nf _ _; simp [aggPass, EntsOk]
   | cons e rest ih =>
     intro subs nf hes hb
     rw [entsOk_cons] at hes
     simp only [aggPass]
-    cases hr : e.dequeue (budget M subs) icv with
+    cases hr : e.dequeue (budget M subs) (icvOf sec) with
     | mk a e' =>
       obtain ⟨he', hfit⟩ := ent_dequeue hes.1 hb hr
       cases a with
       | some p =>
         simp only
-        have hinv := append_inv hb (hfit p rfl)
+        have hinv := append_inv hb (fitE_encrypt (hfit p rfl))
         split
         · exact ⟨entsOk_cons.2 ⟨he', hes.2⟩, Or.inr hinv⟩
         · rename_i hnb
-          have := ih (subs ++ [p]) false hes.2 (by omega)
+          have := ih (subs ++ [p.encrypt sec]) false hes.2 (by omega)
           refine ⟨entsOk_cons.2 ⟨he', this.1⟩, Or.inr ?_⟩
           rcases this.2 with h | h
           · rw [h]; exact hinv
@@ -297,9 +350,9 @@ theorem aggPass_spec (M icv : Nat) (es : List Ent) : ∀ (subs : List QPdu) (nf 
         have := ih subs nf hes.2 hb
         exact ⟨entsOk_cons.2 ⟨he', this.1⟩, this.2⟩
 
-theorem aggLoop_spec (M icv : Nat) (fuel : Nat) : ∀ (es : List Ent) (subs : List QPdu), EntsOk es →
-    EntsOk (aggLoop M icv fuel es subs).1 ∧
-      ((aggLoop M icv fuel es subs).2 = subs ∨ Inv M (aggLoop M icv fuel es subs).2) := by
+theorem aggLoop_spec (M : Nat) (sec : Option Nat) (fuel : Nat) : ∀ (es : List Ent) (subs : List QPdu), EntsOk es →
+    EntsOk (aggLoop M sec fuel es subs).1 ∧
+      ((aggLoop M sec fuel es subs).2 = subs ∨ Inv M (aggLoop M sec fuel es subs).2) := by
   induction fuel with
   | zero => intro es subs h; simp [aggLoop, h]
   | succ fuel ih =>
@@ -308,10 +361,10 @@ theorem aggLoop_spec (M icv : Nat) (fuel : Nat) : ∀ (es : List Ent) (subs : Li
     split
     · exact ⟨hes, Or.inl rfl⟩
     · rename_i hb
-      have hp := aggPass_spec M icv es subs true hes (by omega)
+      have hp := aggPass_spec M sec es subs true hes (by omega)
       split
       · exact hp
-      · have := ih _ (aggPass M icv es subs true).2.1 hp.1
+      · have := ih _ (aggPass M sec es subs true).2.1 hp.1
         refine ⟨this.1, ?_⟩
         rcases this.2 with h | h
         · rw [h]; exact hp.2
@@ -354,7 +407,7 @@ theorem entsOk_set {es : List Ent} {i : Nat} {e : Ent} (h : EntsOk es) (he : Ent
   · rw [h1]; exact he
 
 theorem firstDequeue_spec (m : Int) (hm : 0 ≤ m) (order : List Nat) : ∀ (es : List Ent), EntsOk es →
-    EntsOk (firstDequeue m order es).2 ∧ ∀ p, (firstDequeue m order es).1 = some p → Fit p m := by
+    EntsOk (firstDequeue m order es).2 ∧ ∀ p, (firstDequeue m order es).1 = some p → FitE p m 0 := by
   induction order with
   | nil => intro es h; simp [firstDequeue, h]
   | cons i rest ih =>
@@ -388,37 +441,61 @@ theorem firstSendack_spec (es : List Ent) (hes : EntsOk es) :
         | none => simp only; exact ⟨entsOk_cons.2 ⟨he', ihr.1⟩, ihr.2⟩
     · exact ⟨entsOk_cons.2 ⟨hes.1, ihr.1⟩, ihr.2⟩
 
-theorem fit_info {p : QPdu} {M : Nat} (h : Fit p M) (hM : 3 ≤ M) : p.info ≤ M := by
-  unfold QPdu.info
-  rcases h.2 with h | h <;> omega
+/-- the octets by which the information field of a frame may exceed the Link MIU: the ICV of a single
+(not aggregated) encrypted UI / I PDU - `collect()` asks for the first PDU with `icv_size=0` "because for
+encrypted but not aggregated UI and I PDUs the receiver must accept them with complete MIU plus ICV size"
+(llc.py) - and nothing for every other frame, in particular nothing for an aggregate -/
+def Frame.slack (sec : Option Nat) : Frame → Nat
+  | .single p => if p.isData then icvOf sec else 0
+  | .agf _ => 0
 
-theorem aggregate_spec (es : List Ent) (M icv : Nat) (p : QPdu) (hes : EntsOk es) (hp : p.info ≤ M)
-    (f : Frame) (es' : List Ent) (h : aggregate es M icv p = (some f, es')) : f.info ≤ M := by
+/-- the first PDU: dequeued with `icv_size=0`, then encrypted -/
+theorem first_info {p : QPdu} {M : Nat} (sec : Option Nat) (h : FitE p M 0) (hM : 3 ≤ M) :
+    (p.encrypt sec).info ≤ M + (Frame.single (p.encrypt sec)).slack sec := by
+  simp only [Frame.slack, QPdu.isData, encrypt_kind]
+  unfold QPdu.info
+  rw [encrypt_len, encrypt_hdr]
+  rcases h.2 with h2 | h2
+  · unfold QPdu.size at h2 ⊢
+    split <;> split at h2 <;> simp_all <;> omega
+  · have hnd := h2.2.2
+    unfold QPdu.isData at hnd
+    have := h2.2.1
+    unfold QPdu.size; rw [if_neg hnd, if_neg hnd]; omega
+
+theorem aggregate_spec (es : List Ent) (M : Nat) (sec : Option Nat) (p : QPdu) (hes : EntsOk es)
+    (f : Frame) (es' : List Ent) (h : aggregate es M sec p = (some f, es')) :
+    EntsOk es' ∧ (f = .single p ∨ ∃ subs, f = .agf subs ∧ agfLen subs - 2 ≤ M) := by
   unfold aggregate at h
   simp only at h
-  have hl := aggLoop_spec M icv (M + 1) es [p] hes
-  generalize aggLoop M icv (M + 1) es [p] = l at h hl
-  have ha : (if budget M l.2 ≥ 0 then aggAcks M l.1 l.2 else l).2 = [p] ∨
-      Inv M (if budget M l.2 ≥ 0 then aggAcks M l.1 l.2 else l).2 := by
+  have hl := aggLoop_spec M sec (M + 1) es [p] hes
+  generalize aggLoop M sec (M + 1) es [p] = l at h hl
+  have ha : EntsOk (if budget M l.2 ≥ 0 then aggAcks M l.1 l.2 else l).1 ∧
+      ((if budget M l.2 ≥ 0 then aggAcks M l.1 l.2 else l).2 = [p] ∨
+      Inv M (if budget M l.2 ≥ 0 then aggAcks M l.1 l.2 else l).2) := by
     split
     · rename_i hb
       have := aggAcks_spec M l.1 l.2 hl.1 hb
+      refine ⟨this.1, ?_⟩
       rcases this.2 with h1 | h1
       · rw [h1]; exact hl.2
       · exact Or.inr h1
-    · exact hl.2
+    · exact hl
   generalize (if budget M l.2 ≥ 0 then aggAcks M l.1 l.2 else l) = a at h ha
   cases h
+  refine ⟨ha.1, ?_⟩
   split
   · rename_i hlen
-    rcases ha with h1 | h1
+    rcases ha.2 with h1 | h1
     · rw [h1] at hlen; simp at hlen
-    · unfold Inv at h1; simp only [Frame.info]; omega
-  · exact hp
+    · right; exact ⟨a.2, rfl, by unfold Inv at h1; omega⟩
+  · exact Or.inl rfl
 
-/-- main bound -/
-theorem collect_bound (es : List Ent) (M icv : Nat) (agf : Bool) (hes : EntsOk es) (hM : 3 ≤ M)
-    (f : Frame) (es' : List Ent) (h : collect es M icv agf = (some f, es')) : f.info ≤ M := by
+/-- main bound: the information field of the frame is within the Link MIU; only a single encrypted
+UI / I PDU carries its ICV on top -/
+theorem collect_bound (es : List Ent) (M : Nat) (sec : Option Nat) (agf : Bool) (hes : EntsOk es) (hM : 3 ≤ M)
+    (f : Frame) (es' : List Ent) (h : collect es M sec agf = (some f, es')) :
+    EntsOk es' ∧ f.info ≤ M + f.slack sec := by
   unfold collect at h
   simp only at h
   have hf := firstDequeue_spec (M : Int) (by omega) (rawFirst es) es hes
@@ -426,13 +503,17 @@ theorem collect_bound (es : List Ent) (M icv : Nat) (agf : Bool) (hes : EntsOk e
   obtain ⟨fo, fes⟩ := first
   cases fo with
   | some p =>
-    have hp := fit_info (hf.2 p rfl) hM
+    have hp := first_info sec (hf.2 p rfl) hM
     simp only at h
     split at h
-    · cases h; exact hp
+    · cases h; exact ⟨hf.1, hp⟩
     · split at h
-      · cases h; exact hp
-      · exact aggregate_spec _ M icv p hf.1 hp f es' h
+      · cases h; exact ⟨hf.1, hp⟩
+      · obtain ⟨h1, h2⟩ := aggregate_spec _ M sec _ hf.1 f es' h
+        refine ⟨h1, ?_⟩
+        rcases h2 with rfl | ⟨subs, rfl, hs⟩
+        · exact hp
+        · simp only [Frame.info, Frame.slack]; omega
   | none =>
     simp only at h
     have hk := firstSendack_spec fes hf.1
@@ -442,9 +523,81 @@ theorem collect_bound (es : List Ent) (M icv : Nat) (agf : Bool) (hes : EntsOk e
     | none => simp at h
     | some p =>
       have hsm := hk.2 p rfl
-      have hp : p.info ≤ M := by unfold QPdu.info; have := hsm.2; omega
+      have hp : (Frame.single p).info ≤ M + (Frame.single p).slack sec := by
+        simp only [Frame.info]; unfold QPdu.info; have := hsm.2.1; omega
       simp only at h
       split at h
-      · cases h; exact hp
-      · exact aggregate_spec _ M icv p hk.1 hp f es' h
+      · cases h; exact ⟨hk.1, hp⟩
+      · obtain ⟨h1, h2⟩ := aggregate_spec _ M sec _ hk.1 f es' h
+        refine ⟨h1, ?_⟩
+        rcases h2 with rfl | ⟨subs, rfl, hs⟩
+        · exact hp
+        · simp only [Frame.info, Frame.slack]; omega
+
+/-! ## the `while miu_size >= 0` loop terminates: the fuel of the model is never exhausted -/
+
+theorem agfLen_le_append (subs : List QPdu) (p : QPdu) : agfLen subs + 2 ≤ agfLen (subs ++ [p]) := by
+  rw [agfLen_append]; omega
+
+/-- a pass that dequeued something made the aggregate at least 2 octets longer -/
+theorem aggPass_grows (M : Nat) (sec : Option Nat) (es : List Ent) : ∀ (subs : List QPdu) (nf : Bool),
+    agfLen subs ≤ agfLen (aggPass M sec es subs nf).2.1 ∧
+    ((aggPass M sec es subs nf).2.2 = false → nf = false ∨ agfLen subs + 2 ≤ agfLen (aggPass M sec es subs nf).2.1) := by
+  induction es with
+  | nil => intro subs nf; cases nf <;> simp [aggPass]
+  | cons e rest ih =>
+    intro subs nf
+    simp only [aggPass]
+    cases hr : e.dequeue (budget M subs) (icvOf sec) with
+    | mk a e' =>
+      cases a with
+      | some p =>
+        simp only
+        have hg := agfLen_le_append subs (p.encrypt sec)
+        split
+        · dsimp only
+          exact ⟨by omega, fun _ => Or.inr hg⟩
+        · have := (ih (subs ++ [p.encrypt sec]) false).1
+          dsimp only
+          exact ⟨by omega, fun _ => Or.inr (by omega)⟩
+      | none =>
+        simp only
+        exact ih subs nf
+
+theorem aggLoop_fuel (M : Nat) (sec : Option Nat) (fuel : Nat) : ∀ (es : List Ent) (subs : List QPdu),
+    budget M subs < fuel → aggLoop M sec (fuel + 1) es subs = aggLoop M sec fuel es subs := by
+  induction fuel with
+  | zero =>
+    intro es subs hb
+    simp only [aggLoop]
+    rw [if_pos (by omega)]
+  | succ fuel ih =>
+    intro es subs hb
+    rw [aggLoop, aggLoop]
+    split
+    · rfl
+    · simp only
+      split
+      · rfl
+      · rename_i hnb hcont
+        have hg := (aggPass_grows M sec es subs true).2
+        have hflag : (aggPass M sec es subs true).2.2 = false := by
+          cases hx : (aggPass M sec es subs true).2.2 with
+          | false => rfl
+          | true => exact absurd (Or.inr hx) hcont
+        have := hg hflag
+        apply ih
+        rcases this with h | h
+        · cases h
+        · unfold budget at hb ⊢; omega
+
+/-- whatever larger bound is given to the aggregation loop, the result is that of `sendMiu + 1` passes -/
+theorem aggLoop_fuel_enough (M : Nat) (sec : Option Nat) (es : List Ent) (subs : List QPdu) (k : Nat) :
+    aggLoop M sec (M + 1 + k) es subs = aggLoop M sec (M + 1) es subs := by
+  induction k with
+  | zero => rfl
+  | succ k ih =>
+    rw [← ih]
+    exact aggLoop_fuel M sec (M + 1 + k) es subs (by unfold budget; omega)
+
 end NfcVerif.Collect
